@@ -772,3 +772,403 @@ Proof.
 Qed.
 
 End Flat.
+
+(* ---- the specification seen by one observer ---- *)
+Section View.
+Context {A : Type} (K : kind).
+
+Definition phase_of (a : @abs A) (o : nat) : phase :=
+  if mem o (ab_subs a) then Active else if mem o (ab_used a) then Gone else Before.
+
+Record WF (a : @abs A) : Prop := {
+  WF_nodup : NoDup (ab_subs a);
+  WF_used : forall o, In o (ab_subs a) -> mem o (ab_used a) = true;
+  WF_dead : live (ab_g a) = false -> ab_subs a = [] }.
+
+Lemma view_map_same o (l : list (ev A)) : view o (map (EGot o) l) = l.
+Proof. induction l as [|n t IH]; cbn; [reflexivity|]. now rewrite Nat.eqb_refl, IH. Qed.
+
+Lemma view_map_other o o' (l : list (ev A)) : o' <> o -> view o (map (EGot o') l) = [].
+Proof.
+  intros H. induction l as [|n t IH]; cbn; [reflexivity|].
+  destruct (Nat.eqb o' o) eqn:E; [apply Nat.eqb_eq in E; contradiction|exact IH].
+Qed.
+
+Lemma view_flat_map o (N : list (ev A)) : forall L, NoDup L ->
+  view o (flat_map (fun o2 => map (EGot o2) N) L) = if mem o L then N else [].
+Proof.
+  induction L as [|x L IH]; intros Hnd; [reflexivity|].
+  inversion Hnd as [|? ? Hnin Hnd']; subst. cbn [flat_map]. rewrite view_app, (IH Hnd').
+  unfold mem. cbn [existsb]. destruct (Nat.eqb o x) eqn:E.
+  - apply Nat.eqb_eq in E. subst x. rewrite view_map_same.
+    replace (existsb (Nat.eqb o) L) with false; [now rewrite app_nil_r|].
+    symmetry. apply (mem_false o L). exact Hnin.
+  - apply Nat.eqb_neq in E. rewrite view_map_other by congruence. reflexivity.
+Qed.
+
+Lemma oview_gone o (g : @gstate A) h : oview K o Gone g h = [].
+Proof. destruct h; reflexivity. Qed.
+
+Lemma mem_app o l1 l2 : mem o (l1 ++ l2) = mem o l1 || mem o l2.
+Proof. unfold mem. apply existsb_app. Qed.
+
+Lemma mem_remove1_same o l : NoDup l -> mem o (remove1 o l) = false.
+Proof. intros H. apply mem_false. rewrite (In_remove1 o l o H). tauto. Qed.
+
+Lemma mem_remove1_other o o' l : NoDup l -> o <> o' -> mem o (remove1 o' l) = mem o l.
+Proof.
+  intros H Hne. destruct (mem o l) eqn:E.
+  - apply mem_In. apply mem_In in E. apply (In_remove1 o' l o H). tauto.
+  - apply mem_false. apply mem_false in E. rewrite (In_remove1 o' l o H). tauto.
+Qed.
+
+Lemma bcast_nonemission (g : @gstate A) p : is_emission p = false -> bcast K g p = [].
+Proof. intros H. unfold bcast. destruct (live g); [|reflexivity]. destruct p; try discriminate; reflexivity. Qed.
+
+Lemma spec_op_g (a : @abs A) p : ab_g (fst (spec_op K a p)) = g_step (ab_g a) p.
+Proof.
+  unfold spec_op. destruct p; cbn [fst ab_g g_step]; try reflexivity.
+  destruct (mem o (ab_used a)); reflexivity.
+Qed.
+
+Lemma WF_step (a : @abs A) p : WF a -> WF (fst (spec_op K a p)).
+Proof.
+  intros [H1 H2 H3]. unfold spec_op. destruct p as [o|o|v|e| |]; cbn [fst].
+  - destruct (mem o (ab_used a)) eqn:Hu; cbn [fst]; [constructor; assumption|].
+    constructor; cbn [ab_subs ab_used ab_g].
+    + destruct (live (ab_g a)); [|exact H1]. apply NoDup_app_single; [exact H1|].
+      intros Hin. rewrite (H2 o Hin) in Hu. discriminate.
+    + intros o2 Hin. destruct (Nat.eq_dec o2 o) as [->|Hne]; [apply mem_cons_same|].
+      rewrite mem_cons_other by exact Hne. apply H2.
+      destruct (live (ab_g a)); [|exact Hin]. apply in_app_or in Hin. destruct Hin as [Hin|[<-|[]]]; [exact Hin|congruence].
+    + intros Hl. rewrite Hl. now apply H3.
+  - constructor; cbn [ab_subs ab_used ab_g].
+    + now apply NoDup_remove1.
+    + intros o2 Hin. apply (In_remove1 o _ o2 H1) in Hin. apply H2. tauto.
+    + intros Hl. rewrite (H3 Hl). reflexivity.
+  - constructor; cbn [ab_subs ab_used ab_g].
+    + match goal with |- context [if ?b then ab_subs a else []] => destruct b end; [exact H1|constructor].
+    + intros o2 Hin. match type of Hin with context [if ?b then ab_subs a else []] => destruct b end;
+        [now apply H2|destruct Hin].
+    + intros Hl. now rewrite Hl.
+  - constructor; cbn [ab_subs ab_used ab_g].
+    + match goal with |- context [if ?b then ab_subs a else []] => destruct b end; [exact H1|constructor].
+    + intros o2 Hin. match type of Hin with context [if ?b then ab_subs a else []] => destruct b end;
+        [now apply H2|destruct Hin].
+    + intros Hl. now rewrite Hl.
+  - constructor; cbn [ab_subs ab_used ab_g].
+    + match goal with |- context [if ?b then ab_subs a else []] => destruct b end; [exact H1|constructor].
+    + intros o2 Hin. match type of Hin with context [if ?b then ab_subs a else []] => destruct b end;
+        [now apply H2|destruct Hin].
+    + intros Hl. now rewrite Hl.
+  - constructor; cbn [ab_subs ab_used ab_g]; [constructor|intros o2 []|reflexivity].
+Qed.
+
+Lemma view_raised o (g : @gstate A) :
+  view o (match g_status g with Disposed => [@ERaised A disposed_exn] | _ => [] end) = [].
+Proof. destruct (g_status g); reflexivity. Qed.
+
+Lemma observer_view_from o : forall h (a : @abs A), WF a ->
+  view o (spec_from K a h) = oview K o (phase_of a o) (ab_g a) h.
+Proof.
+  induction h as [|p h IH]; intros a Hwf; [reflexivity|].
+  cbn [spec_from]. pose proof (IH (fst (spec_op K a p)) (WF_step a p Hwf)) as IHp.
+  rewrite spec_op_g in IHp. destruct (spec_op K a p) as [a' out] eqn:Hs. cbn [fst] in IHp.
+  cbn [view]. rewrite view_app, IHp. clear IHp IH.
+  destruct Hwf as [H1 H2 H3].
+  assert (Hact : mem o (ab_subs a) = true -> live (ab_g a) = true).
+  { intros Hm. destruct (live (ab_g a)) eqn:E; [reflexivity|]. rewrite (H3 eq_refl) in Hm. discriminate. }
+  assert (Hsu : mem o (ab_subs a) = true -> mem o (ab_used a) = true).
+  { intros Hm. apply H2. now apply mem_In. }
+  unfold spec_op in Hs. destruct p as [o'|o'|v|e| |].
+  - (* OSub *)
+    destruct (mem o' (ab_used a)) eqn:Hu; injection Hs as <- <-.
+    + cbn [view app oview]. unfold phase_of at 2. unfold phase_of.
+      destruct (mem o (ab_subs a)) eqn:Ms.
+      * rewrite bcast_nonemission by reflexivity. cbn [g_step app]. now rewrite (Hact eq_refl).
+      * destruct (mem o (ab_used a)) eqn:Mu; [now rewrite oview_gone|].
+        destruct (Nat.eqb o' o) eqn:E; [apply Nat.eqb_eq in E; subst; congruence|reflexivity].
+    + cbn [oview g_step]. unfold phase_of. cbn [ab_subs ab_used ab_g].
+      destruct (Nat.eqb o' o) eqn:E.
+      * apply Nat.eqb_eq in E. subst o'. rewrite view_map_same.
+        assert (Ms : mem o (ab_subs a) = false).
+        { destruct (mem o (ab_subs a)) eqn:Ms; [|reflexivity]. rewrite (Hsu eq_refl) in Hu. discriminate. }
+        rewrite Ms, Hu. f_equal. destruct (live (ab_g a)).
+        -- now rewrite mem_app, Ms, mem_cons_same.
+        -- now rewrite Ms, mem_cons_same.
+      * apply Nat.eqb_neq in E. rewrite view_map_other by exact E. cbn [app].
+        assert (Ms : mem o (if live (ab_g a) then ab_subs a ++ [o'] else ab_subs a) = mem o (ab_subs a)).
+        { destruct (live (ab_g a)); [|reflexivity]. rewrite mem_app. unfold mem at 2. cbn.
+          destruct (Nat.eqb o o') eqn:E2; [apply Nat.eqb_eq in E2; congruence|]. now rewrite !orb_false_r. }
+        rewrite Ms, mem_cons_other by congruence.
+        destruct (mem o (ab_subs a)) eqn:Ms2.
+        -- rewrite bcast_nonemission by reflexivity. cbn [app]. now rewrite (Hact eq_refl).
+        -- destruct (mem o (ab_used a)); [now rewrite oview_gone|reflexivity].
+  - (* OUnsub *)
+    injection Hs as <- <-. cbn [view app oview g_step]. unfold phase_of. cbn [ab_subs ab_used ab_g].
+    destruct (Nat.eqb o' o) eqn:E.
+    + apply Nat.eqb_eq in E. subst o'. rewrite (mem_remove1_same o _ H1).
+      destruct (mem o (ab_subs a)) eqn:Ms.
+      * rewrite (Hsu eq_refl). now rewrite oview_gone.
+      * destruct (mem o (ab_used a)); [now rewrite oview_gone|reflexivity].
+    + apply Nat.eqb_neq in E. rewrite (mem_remove1_other o o' _ H1) by congruence.
+      destruct (mem o (ab_subs a)); [reflexivity|].
+      destruct (mem o (ab_used a)); [now rewrite oview_gone|reflexivity].
+  - (* ONext *)
+    injection Hs as <- <-. rewrite view_app, view_raised, (view_flat_map o _ _ H1). cbn [app].
+    unfold phase_of. cbn [ab_subs ab_used ab_g oview g_step].
+    destruct (mem o (ab_subs a)) eqn:Ms.
+    + rewrite (Hact eq_refl). cbn [live g_status]. rewrite ?Ms. cbn [mem existsb].
+      rewrite ?(Hsu eq_refl), ?oview_gone. reflexivity.
+    + destruct (live (ab_g a)) eqn:Hl; cbn [live g_status]; rewrite ?Hl, ?Ms; cbn [mem existsb];
+        (destruct (mem o (ab_used a)); [now rewrite ?oview_gone|reflexivity]).
+  - (* OErr *)
+    injection Hs as <- <-. rewrite view_app, view_raised, (view_flat_map o _ _ H1). cbn [app].
+    unfold phase_of. cbn [ab_subs ab_used ab_g oview g_step].
+    destruct (mem o (ab_subs a)) eqn:Ms.
+    + rewrite (Hact eq_refl). cbn [live g_status]. rewrite ?Ms. cbn [mem existsb].
+      rewrite ?(Hsu eq_refl), ?oview_gone. reflexivity.
+    + destruct (live (ab_g a)) eqn:Hl; cbn [live g_status]; rewrite ?Hl, ?Ms; cbn [mem existsb];
+        (destruct (mem o (ab_used a)); [now rewrite ?oview_gone|reflexivity]).
+  - (* ODone *)
+    injection Hs as <- <-. rewrite view_app, view_raised, (view_flat_map o _ _ H1). cbn [app].
+    unfold phase_of. cbn [ab_subs ab_used ab_g oview g_step].
+    destruct (mem o (ab_subs a)) eqn:Ms.
+    + rewrite (Hact eq_refl). cbn [live g_status]. rewrite ?Ms. cbn [mem existsb].
+      rewrite ?(Hsu eq_refl), ?oview_gone. reflexivity.
+    + destruct (live (ab_g a)) eqn:Hl; cbn [live g_status]; rewrite ?Hl, ?Ms; cbn [mem existsb];
+        (destruct (mem o (ab_used a)); [now rewrite ?oview_gone|reflexivity]).
+  - (* ODispose *)
+    injection Hs as <- <-. cbn [view app oview]. unfold phase_of. cbn [ab_subs ab_used ab_g].
+    change (mem o []) with false. cbv iota.
+    destruct (mem o (ab_subs a)) eqn:Ms.
+    + rewrite (Hsu eq_refl), oview_gone. rewrite bcast_nonemission by reflexivity. reflexivity.
+    + destruct (mem o (ab_used a)); [now rewrite oview_gone|reflexivity].
+Qed.
+
+(* what observer o receives according to the specification is exactly:
+   nothing before its subscribe call, the greeting, then every call made while
+   it is subscribed, until it unsubscribes / the subject ends or is disposed *)
+Theorem observer_view (v0 : A) (h : list (@op A)) (o : nat) :
+  view o (spec K v0 h) = oview K o Before (g_init v0) h.
+Proof.
+  unfold spec. rewrite observer_view_from; [reflexivity|].
+  constructor; cbn; [constructor|intros o2 []|reflexivity].
+Qed.
+End View.
+
+(* both steps together: the class itself, seen by one observer *)
+Theorem class_observer_view {A} (pynone : A) (K : kind) (v0 : A) (h : list (@op A)) :
+  exists fuel0, forall fuel, (fuel0 <= fuel)%nat ->
+    snd (run_history (cls_of pynone K) v0 fuel (h, [])) = true /\
+    forall o, view o (fst (run_history (cls_of pynone K) v0 fuel (h, []))) = oview K o Before (g_init v0) h.
+Proof.
+  destruct (refines_spec pynone K v0 h) as [f0 H]. exists f0. intros fuel Hle.
+  rewrite (H fuel Hle). cbn [fst snd]. split; [reflexivity|]. intros o. apply observer_view.
+Qed.
+
+(* ---- after dispose(): arbitrary call trees, arbitrary reactions ---- *)
+Section Disposed.
+Context {A : Type} (pynone : A) (K : kind) (react : nat -> nat -> list (@op A)).
+Notation C := (cls_of pynone K).
+
+(* emitting raises DisposedException and reaches nobody (any class: the check is Subject.on_next/on_error/on_completed) *)
+Theorem disposed_emit_raises (s : @sstate A) m k l p :
+  is_disposed s = true -> is_emission p = true ->
+  step C react (Cfg s m (IOp p :: k) l) = Cfg s m k (ERaised disposed_exn :: EOp p :: l).
+Proof.
+  intros Hd Hp. unfold step, step_op. cbn [c_k c_st c_obs c_rlog].
+  destruct p; try discriminate; now rewrite Hd.
+Qed.
+
+(* subscribing is answered with DisposedException (handed to the subscriber's
+   on_error by Observable.subscribe) and registers nobody *)
+Theorem disposed_subscribe_fails (s : @sstate A) m k l o :
+  is_disposed s = true -> m o = None ->
+  step C react (Cfg s m (IOp (OSub o) :: k) l) =
+  Cfg s (upd m o (called true fresh_ostate)) (map IOp (react o 0) ++ ISubRet o None :: k)
+      (EGot o (Err disposed_exn) :: EOp (OSub o) :: l).
+Proof.
+  intros Hd Hm. unfold step, step_op. cbn [c_k c_st c_obs c_rlog]. rewrite Hm.
+  replace (c_subscribe C s o) with (@None (@sstate A * list (@instr A) * subscription)); [reflexivity|].
+  destruct K; cbn; unfold subj_subscribe, beh_subscribe, async_subscribe; now rewrite Hd.
+Qed.
+
+Lemma inner_dispose_disposed (s : @sstate A) os o :
+  is_disposed (fst (inner_dispose s os o)) = is_disposed s.
+Proof.
+  unfold inner_dispose. destruct (negb (is_disposed s) && inner_obs os); [|reflexivity].
+  destruct (mem o (observers s)); reflexivity.
+Qed.
+
+Lemma ado_dispose_disposed_flag (s : @sstate A) os o :
+  is_disposed (fst (ado_dispose s os o)) = is_disposed s.
+Proof.
+  unfold ado_dispose. cbn [sad_disposed sad_cur a_stopped inner_obs handle calls].
+  destruct (sad_disposed os); [reflexivity|].
+  destruct (sad_cur os) as [[|]|]; cbn [sub_dispose fst]; try reflexivity. apply inner_dispose_disposed.
+Qed.
+
+Lemma sad_set_disposed_flag sub (s : @sstate A) os o :
+  is_disposed (fst (sad_set sub s os o)) = is_disposed s.
+Proof.
+  unfold sad_set. destruct (sad_disposed os); [|reflexivity].
+  destruct sub; cbn [sub_dispose fst]; [apply inner_dispose_disposed|reflexivity].
+Qed.
+
+Lemma disposed_step c : is_disposed (c_st c) = true -> is_disposed (c_st (step C react c)) = true.
+Proof.
+  destruct c as [s m k l]. cbn [c_st]. intros Hd. unfold step. cbn [c_k c_st c_obs c_rlog].
+  destruct k as [|i k]; [exact Hd|]. destruct i as [p|o n|o|o sub].
+  - unfold step_op. destruct p as [o|o|v|e| |].
+    + destruct (m o); [exact Hd|].
+      replace (c_subscribe C s o) with (@None (@sstate A * list (@instr A) * subscription)); [exact Hd|].
+      destruct K; cbn; unfold subj_subscribe, beh_subscribe, async_subscribe; now rewrite Hd.
+    + destruct (m o) as [os|]; [|exact Hd]. destruct (handle os); [|exact Hd].
+      destruct (ado_dispose s os o) as [s' os'] eqn:E. cbn [c_st].
+      change s' with (fst (s', os')). rewrite <- E, ado_dispose_disposed_flag. exact Hd.
+    + now rewrite Hd.
+    + now rewrite Hd.
+    + now rewrite Hd.
+    + cbn [c_st]. destruct K; reflexivity.
+  - destruct (m o) as [os|]; [|exact Hd]. destruct (a_stopped os); [exact Hd|]. destruct n; exact Hd.
+  - destruct (m o) as [os|]; [|exact Hd].
+    destruct (ado_dispose s os o) as [s' os'] eqn:E. cbn [c_st].
+    change s' with (fst (s', os')). rewrite <- E, ado_dispose_disposed_flag. exact Hd.
+  - destruct (m o) as [os|]; [|exact Hd]. destruct sub as [sb|]; [|exact Hd].
+    destruct (sad_set sb s os o) as [s' os'] eqn:E. cbn [c_st].
+    change s' with (fst (s', os')). rewrite <- E, sad_set_disposed_flag. exact Hd.
+Qed.
+
+Theorem disposed_forever n c :
+  is_disposed (c_st c) = true -> is_disposed (c_st (run C react n c)) = true.
+Proof. intros H. apply (run_ind C react (fun c => is_disposed (c_st c) = true)); [apply disposed_step|exact H]. Qed.
+
+Theorem dispose_disposes (s : @sstate A) m k l :
+  let c' := step C react (Cfg s m (IOp ODispose :: k) l) in
+  is_disposed (c_st c') = true /\ observers (c_st c') = [].
+Proof. cbn. destruct K; split; reflexivity. Qed.
+End Disposed.
+
+(* ---- reading the per-observer specification: the clauses of C20, C21, C23 ---- *)
+Section Readings.
+Context {A : Type}.
+
+Fixpoint g_run (g : @gstate A) (h : list (@op A)) : gstate :=
+  match h with [] => g | p :: t => g_run (g_step g p) t end.
+
+Definition no_sub (o : nat) (h : list (@op A)) : Prop := forall p, In p h -> p <> OSub o.
+
+(* before its subscribe call an observer receives nothing *)
+Lemma oview_before_skip K o : forall pre (g : @gstate A) rest,
+  no_sub o pre -> oview K o Before g (pre ++ rest) = oview K o Before (g_run g pre) rest.
+Proof.
+  induction pre as [|p pre IH]; intros g rest H; [reflexivity|].
+  cbn [app oview g_run].
+  assert (Hpre : no_sub o pre) by (intros q Hq; apply H; now right).
+  destruct p as [o'| | | | |]; try (apply IH; exact Hpre).
+  destruct (Nat.eqb o' o) eqn:E; [|apply IH; exact Hpre].
+  apply Nat.eqb_eq in E. subst o'. exfalso. apply (H (OSub o)); [now left|reflexivity].
+Qed.
+
+(* subscribing to a live subject: the greeting, then the observer is Active;
+   to an ended or disposed subject: the greeting and nothing else, ever *)
+Lemma oview_subscribe K o (g : @gstate A) h :
+  oview K o Before g (OSub o :: h) =
+  greet K g ++ (if live g then oview K o Active g h else []).
+Proof.
+  cbn [oview g_step]. rewrite Nat.eqb_refl. destruct (live g); [reflexivity|]. now rewrite oview_gone.
+Qed.
+
+Lemma late_subscriber K o (g : @gstate A) h :
+  live g = false -> oview K o Before g (OSub o :: h) = greet K g.
+Proof. intros H. rewrite oview_subscribe, H. apply app_nil_r. Qed.
+
+Lemma greet_ended_subject (g : @gstate A) t : g_status g = Ended t -> greet KSubject g = [t].
+Proof. intros H. unfold greet. rewrite H. destruct t; reflexivity. Qed.
+
+Lemma greet_ended_behavior (g : @gstate A) t : g_status g = Ended t -> greet KBehavior g = [t].
+Proof. intros H. unfold greet. rewrite H. destruct t; reflexivity. Qed.
+
+Lemma greet_ended K (g : @gstate A) t :
+  g_status g = Ended t ->
+  greet K g = match K, t with KAsync, Done => final g | _, _ => [t] end.
+Proof. intros H. unfold greet. rewrite H. destruct t, K; reflexivity. Qed.
+
+Lemma greet_disposed K (g : @gstate A) : g_status g = Disposed -> greet K g = [Err disposed_exn].
+Proof. intros H. unfold greet. now rewrite H. Qed.
+
+(* the value a BehaviorSubject holds: the last on_next value, or the initial one *)
+Fixpoint last_next (v : A) (h : list (@op A)) : A :=
+  match h with
+  | [] => v
+  | ONext x :: t => last_next x t
+  | _ :: t => last_next v t
+  end.
+
+Lemma g_run_live_cur : forall h (g : @gstate A),
+  live (g_run g h) = true -> live g = true /\ g_cur (g_run g h) = last_next (g_cur g) h.
+Proof.
+  induction h as [|p h IH]; intros g H; [split; [exact H|reflexivity]|].
+  cbn [g_run] in *. destruct (IH _ H) as [Hl Hc]. rewrite Hc.
+  destruct p as [o|o|v|e| |]; cbn [g_step last_next] in *.
+  - split; [exact Hl|reflexivity].
+  - split; [exact Hl|reflexivity].
+  - destruct (live g) eqn:E; [split; reflexivity|]. rewrite E in Hl. discriminate.
+  - destruct (live g) eqn:E; [discriminate|congruence].
+  - destruct (live g) eqn:E; [discriminate|congruence].
+  - discriminate.
+Qed.
+
+(* C21: a new subscriber of a live BehaviorSubject first receives the current value *)
+Theorem behavior_greeting (v0 : A) o pre h :
+  no_sub o pre -> live (g_run (g_init v0) pre) = true ->
+  oview KBehavior o Before (g_init v0) (pre ++ OSub o :: h) =
+  Next (last_next v0 pre) :: oview KBehavior o Active (g_run (g_init v0) pre) h.
+Proof.
+  intros Hns Hl. rewrite oview_before_skip by exact Hns. rewrite oview_subscribe, Hl.
+  destruct (g_run_live_cur pre (g_init v0) Hl) as [_ Hc]. cbn [g_init g_cur] in Hc.
+  unfold greet. apply live_of_status in Hl. rewrite Hl. cbn. now rewrite Hc.
+Qed.
+
+(* C23: while the AsyncSubject is live nothing is delivered *)
+Definition no_end (h : list (@op A)) : Prop :=
+  forall p, In p h -> match p with OErr _ | ODone | ODispose => False | _ => True end.
+
+Lemma g_run_no_end : forall h (g : @gstate A), no_end h -> live g = true -> live (g_run g h) = true.
+Proof.
+  induction h as [|p h IH]; intros g H Hl; [exact Hl|].
+  cbn [g_run]. apply IH; [intros q Hq; apply H; now right|].
+  specialize (H p (or_introl eq_refl)). destruct p; cbn [g_step]; try exact Hl; try contradiction.
+  now rewrite Hl.
+Qed.
+
+Theorem async_silent_until_end o : forall h (g : @gstate A) ph,
+  no_end h -> live g = true -> oview KAsync o ph g h = [].
+Proof.
+  induction h as [|p h IH]; intros g ph H Hl; [reflexivity|].
+  assert (Hh : no_end h) by (intros q Hq; apply H; now right).
+  specialize (H p (or_introl eq_refl)).
+  assert (Hl' : live (g_step g p) = true).
+  { destruct p; cbn [g_step]; try exact Hl; try contradiction. now rewrite Hl. }
+  cbn [oview]. destruct ph.
+  - destruct p as [o'| | | | |]; try (apply IH; assumption).
+    destruct (Nat.eqb o' o); [|apply IH; assumption].
+    unfold greet. rewrite Hl. apply live_of_status in Hl. rewrite Hl. cbn [app]. apply IH; assumption.
+  - destruct p as [o'|o'|v|e| |]; try contradiction.
+    + rewrite bcast_nonemission by reflexivity. rewrite Hl'. apply IH; assumption.
+    + destruct (Nat.eqb o' o); [reflexivity|apply IH; assumption].
+    + unfold bcast. rewrite Hl, Hl'. apply IH; assumption.
+  - reflexivity.
+Qed.
+
+(* C23: on completion a current subscriber gets the last value (if any) then
+   completion, on error only the error; afterwards nothing *)
+Lemma oview_active_end K o (g : @gstate A) p h :
+  live g = true -> (match p with OErr _ | ODone => True | _ => False end) ->
+  oview K o Active g (p :: h) = bcast K g p.
+Proof.
+  intros Hl Hp. cbn [oview]. destruct p; try contradiction; cbn [g_step]; rewrite Hl; cbn [live g_status];
+    now rewrite app_nil_r.
+Qed.
+End Readings.
